@@ -21,7 +21,7 @@ CONSTANTS MaxFile,      \* maxBytesPerFile
           MaxCrashes,   \* 0, 1 or 2 (2: the incarnation after the first crash is used, then crashes again)
           AllowReopen,  \* clean Close + reopen allowed
           AllowTick,    \* sync ticker may fire
-          PostPuts,     \* messages the client may enqueue after the recovery (0 or 1)
+          PostPuts,     \* messages the client may enqueue after the recovery (interleaved with the deliveries)
           Mutant        \* "" = faithful model; otherwise a named deviation (non-vacuity checks)
 
 (* Generations.  While no crash is pending judgement (mark = None) the current incarnation has a     *)
@@ -278,7 +278,9 @@ OpenAs(rebase) ==
          p2 == IF MetaUsable THEN meta.wp ELSE 0
          \* discard what lies beyond the persisted write position in the write file (absent in the
          \* pinned code: deviation "no_truncate_on_open")
-         sg == IF Mutant # "no_truncate_on_open" /\ f2 \in Files /\ Len(seg[f2]) > p2
+         \* deviation "no_truncate_without_meta": the truncation is tied to a metadata file having been loaded
+         sg == IF Mutant # "no_truncate_on_open" /\ ~(Mutant = "no_truncate_without_meta" /\ ~MetaUsable)
+                  /\ f2 \in Files /\ Len(seg[f2]) > p2
                THEN [seg EXCEPT ![f2] = SubSeq(seg[f2], 1, p2)] ELSE seg
      IN /\ rf' = f1 /\ rp' = p1 /\ wf' = f2 /\ wp' = p2 /\ nrf' = f1 /\ nrp' = p1
         /\ depth' = IF MetaUsable THEN meta.depth ELSE 0
@@ -322,6 +324,11 @@ C08Run == mark # None => /\ IsRun(OldPos)
 C08 == (mark # None /\ Idle) => RecoveryOK(OldPos, mark.n, mark.c, mark.ws, mark.cs)
 \* a message enqueued after the recovery is delivered too (nothing written lands in a skipped file)
 C08Sentinel == (mark # None /\ Idle) => \A id \in (mark.top + 1)..Len(enq) : \E j \in 1..Len(taken) : taken[j] = id
+\* ... and life goes on after the recovery: what is enqueued after the restart comes out after everything that
+\* survived, in enqueue order, each once (a stale message of the previous life never reappears behind a newer one)
+NewTaken == SelectSeq(taken, LAMBDA id : mark # None /\ id > mark.top)
+C08PostFifo == mark # None => /\ \A i \in 1..Len(NewTaken) : NewTaken[i] = mark.top + i
+                              /\ \A i, j \in 1..Len(taken) : (i < j /\ taken[i] > mark.top) => taken[j] > mark.top
 \* recovery never interprets undefined bytes as a record and never has to skip files
 NoGarbage == pc # "garbage"
 NoSkip == pc # "skip"
